@@ -19,6 +19,15 @@ def main():
     if '--tier' in args: i = args.index('--tier'); tier = args[i + 1]; del args[i:i + 2]
     if '--demo-flags' in args: i = args.index('--demo-flags'); demo_flags = args[i + 1]; del args[i:i + 2]
     patch, demo, out = args[0], args[1], args[2]; checks = args[3:]
+    # a notes file next to the demo may carry the exact compile line: "COMPILE: g++ -std=c++11 -DFFSM2_ENABLE_X ... demo.cpp -o demo"
+    notes = os.path.join(os.path.dirname(demo), 'notes' + re.sub(r'\D', '', os.path.basename(demo)) + '.txt')
+    if not demo_flags and os.path.exists(notes):
+        m = re.search(r'COMPILE:\s*(.+)', open(notes).read())
+        if m:
+            toks = [t for t in m.group(1).replace('`', ' ').split() if (t.startswith('-std=') or t.startswith('-D') or t.startswith('-f') or t.startswith('-O') or t == '-g' or t.startswith('-pthread'))]
+            demo_flags = ' '.join(toks)
+            if 'clang++' in m.group(1): demo_flags += ' --CLANG--'
+            if '/development' in m.group(1) and 'machine_dev' in open(demo).read(): pass
     wt = '/tmp/mutrepo_%d' % os.getpid()
     res = dict(patch=patch, demo=demo, tier=tier, checks={}, when=time.strftime('%Y-%m-%d %H:%M:%S'))
     rc, o = sh('git -C /repo worktree add -q --detach %s HEAD' % wt)
@@ -32,7 +41,8 @@ def main():
         # demonstration
         for label, inc in (('clean', '/repo'), ('changed', wt)):
             exe = '/tmp/demo_%s_%d' % (label, os.getpid())
-            rc, o = sh('g++ -std=c++14 -ftemplate-depth=2048 %s -I%s/include -I%s/development %s -o %s' % (demo_flags, inc, inc, os.path.abspath(demo), exe))
+            cxx = 'clang++' if '--CLANG--' in demo_flags else 'g++'
+            rc, o = sh('%s -std=c++14 -ftemplate-depth=2048 %s -I%s/include -I%s/development %s -o %s' % (cxx, demo_flags.replace('--CLANG--', ''), inc, inc, os.path.abspath(demo), exe))
             if rc: res['demo_' + label] = 'does not compile: ' + o[-600:]
             else:
                 try:
